@@ -5,6 +5,7 @@ import RgVerif.Lemmas.GlobDocSimple
 import RgVerif.Lemmas.GlobDocStar
 import RgVerif.Lemmas.GlobDocClass
 import RgVerif.Lemmas.GlobDocAlt
+import RgVerif.Lemmas.GlobDocStarP
 namespace RgVerif.Driver.C12
 open RgVerif RgVerif.Glob
 
@@ -57,7 +58,7 @@ def handle (cmd : String) (args : List Sx) : String :=
       | .error e => "err " ++ errName e
       | .ok toks =>
         let gl : Glob := { opts := o, tokens := toks }
-        s!"ok {stratName (strategyOf gl)} {toHex (toRegex o toks)} {if GlobDoc.okGlob (docOpts o) cs then 1 else 0} {if tokensValid toks then 1 else 0} {if simpleGlob o.be cs || okStarGlob o.be cs || okClassGlob o.be cs || okAltGlob o cs then 1 else 0}"
+        s!"ok {stratName (strategyOf gl)} {toHex (toRegex o toks)} {if GlobDoc.okGlob (docOpts o) cs then 1 else 0} {if tokensValid toks then 1 else 0} {if simpleGlob o.be cs || okStarGlob o.be cs || okClassGlob o.be cs || okAltGlob o cs || okStarGlobP o.be cs then 1 else 0}"
   | "c12.set", [.list (.atom "globs" :: gs), .list (.atom "paths" :: ps)] =>
     match gs.mapM parseGlobSx, ps.mapM Sx.bytes? with
     | some gs, some ps =>
@@ -76,6 +77,16 @@ def handle (cmd : String) (args : List Sx) : String :=
           s!"{commaNats (setMatches globs p)}|{bits m}|{bits st}|{bits d}|{if lastCompDots p then 1 else 0}"
         bits oks ++ " " ++ ";".intercalate (ps.map one)
     | _, _ => "bad-op"
+  | "c12.into", [.list (.atom "buf" :: bs), .list (.atom "globs" :: gs), p] =>
+    -- one `matches_candidate_into` call on the model, with the buffer the previous call left behind
+    match bs.mapM Sx.nat?, gs.mapM parseGlobSx, p.bytes? with
+    | some buf, some gs, some p =>
+      match gs.mapM (fun (oc : Opts × List Nat) => match parse oc.1 oc.2 with
+                      | .ok toks => some ({ opts := oc.1, tokens := toks } : Glob)
+                      | .error _ => none) with
+      | none => "err"
+      | some globs => "ok " ++ commaNats ((GlobSet.new globs).matchesCandidateInto (candidate p) buf)
+    | _, _, _ => "bad-op"
   | "c12.cand", [p] =>
     match p.bytes? with
     | some p => let c := candidate p; s!"{toHex c.basename} {toHex c.ext}"
